@@ -227,3 +227,51 @@ func VH_C04_realroll() {
 	}
 	vAssert(vDrawsFrom(src) == vDrawCount(), "draws-from-given-source")
 }
+
+// dice terms nested in the count, the sides or a modifier argument of an
+// outer roll, with the outer roll's own modifiers applied afterwards
+var vC04Nested = []struct {
+	src      string
+	min, max string // value under min / max mode; "error" if the parameters are illegal
+}{
+	{"3d(1d6)k1", "1", "6"},
+	{"4d6k(1d1)", "1", "6"},
+	{"2d(1d4)min10", "20", "20"},
+	{"2d(1d4)k0", "error", "error"},
+	{"(1d2)d(1d6)q1", "1", "6"},
+	{"3d(2d3)dl1 + 2d(1d4)k1", "3", "16"},
+	{"2d(1d(1d6))max2", "2", "4"},
+	{"3d6k(1d2) + 3d(1d6)k(1d2)", "2", "24"},
+	{"2d(1d6)max0", "0", "0"},
+	{"2d6dh(1d1) + 1d(2d3)min4", "5", "12"},
+}
+
+func init() {
+	vHarnesses["VH_C04_nested"] = VH_C04_nested
+}
+
+//vh:prop=C04 tiers=quick,thorough sigkeys=prog,mode budget_s=600 bounds="10 programs in which dice terms are nested in the count, sides or a modifier argument of an outer roll whose own keep / drop / min / max modifiers follow, under min and max mode (every die at 1 / its side count): the total is what the outer rule computes with its own modifiers, illegal parameters are rejected; evaluated twice in one program as well (the second occurrence reuses dice-state slots)"
+func VH_C04_nested() {
+	pr := vC04Nested[vChoice("prog", len(vC04Nested))]
+	maxMode := vChoice("mode", 2) == 1
+	vm := vNewVM()
+	vm.Config.DiceMinMode = !maxMode
+	vm.Config.DiceMaxMode = maxMode
+	want := pr.min
+	if maxMode {
+		want = pr.max
+	}
+	for _, src := range []string{pr.src, "[" + pr.src + ", " + pr.src + "][1]"} {
+		err := vm.Run(src)
+		if want == "error" {
+			vAssert(err != nil, "illegal-parameter-is-rejected")
+			continue
+		}
+		vAssert(err == nil, "legal-dice-program-evaluates")
+		if err != nil {
+			return
+		}
+		vAssert(vm.Ret.ToRepr() == want, "total-is-what-the-outer-rule-computes-with-its-own-modifiers")
+	}
+	vReach("ran")
+}
